@@ -78,16 +78,34 @@ def run_history(variant, items):
     keep = []              # keep deferreds alive (ids stay unique)
     execs = []             # per execute: (did, tid written, unit)
 
-    def mk_cb(did):
-        def cb(reply):
-            fired.append((did, "cb", int(reply.transaction_id) if variant == "dict" else 0,
-                          int(reply.registers[0]) if getattr(reply, "registers", None) else 70000))
-        return cb
+    def issue(unit, re=False, rc=False):
+        """one protocol.execute(); re / rc: the errback / callback issues a further (plain) request"""
+        nonlocal alloc
+        alloc += 1
+        did = alloc
+        nw = len(tr.writes)
+        req = ReadHoldingRegistersRequest(address=did % 1000, count=1, unit=unit)
+        d = guarded(proto.execute, req)
+        w = tr.writes[nw:]
+        # serial variant: nothing on the wire carries the tid; observe the manager's counter instead
+        tid = int.from_bytes(w[0][0:2], "big") if (w and variant == "dict") else int(proto.transaction.tid)
+        sent.append((did, tid))
+        execs.append((did, tid, unit))
+        if d is not None:
+            keep.append(d)
+            did_of[id(d)] = did
 
-    def mk_eb(did):
-        def eb(failure):
-            fired.append((did, "err", pyexn(failure.value)))
-        return eb
+            def cb(reply):
+                fired.append((did, "cb", int(reply.transaction_id) if variant == "dict" else 0,
+                              int(reply.registers[0]) if getattr(reply, "registers", None) else 70000))
+                if rc:
+                    issue(unit)
+
+            def eb(failure):
+                fired.append((did, "err", pyexn(failure.value)))
+                if re:
+                    issue(unit)
+            d.addCallbacks(cb, eb)
 
     def guarded(f, *a):
         try:
@@ -97,22 +115,9 @@ def run_history(variant, items):
             return None
 
     for it in items:
-        if it[0] == "exec":
-            alloc += 1
-            did = alloc
-            nw = len(tr.writes)
-            req = ReadHoldingRegistersRequest(address=did % 1000, count=1, unit=it[1])
-            d = guarded(proto.execute, req)
-            ops.append("Execute")
-            w = tr.writes[nw:]
-            # serial variant: nothing on the wire carries the tid; observe the manager's counter instead
-            tid = int.from_bytes(w[0][0:2], "big") if (w and variant == "dict") else int(proto.transaction.tid)
-            sent.append((did, tid))
-            execs.append((did, tid, it[1]))
-            if d is not None:
-                keep.append(d)
-                did_of[id(d)] = did
-                d.addCallbacks(mk_cb(did), mk_eb(did))
+        if it[0] in ("exec", "exec_e", "exec_c"):
+            ops.append({"exec": "Execute", "exec_e": "ExecuteE", "exec_c": "ExecuteC"}[it[0]])
+            issue(it[1], re=(it[0] == "exec_e"), rc=(it[0] == "exec_c"))
         elif it[0] == "reply":
             frames, data = [], b""
             for j, utid, uover, rid in it[1]:
@@ -175,7 +180,7 @@ def region(variant, items):
     units = {}
     regs = set()
     for it in items:
-        if it[0] == "exec":
+        if it[0] in ("exec", "exec_e", "exec_c"):
             alloc += 1
             if out and alloc - min(out) >= 65536:
                 regs.add("wrap")
@@ -197,7 +202,7 @@ def region(variant, items):
 
 
 def items_unit(items, j):
-    execs = [it for it in items if it[0] == "exec"]
+    execs = [it for it in items if it[0] in ("exec", "exec_e", "exec_c")]
     if j is not None and j < len(execs):
         return execs[j][1]
     return 1
@@ -294,6 +299,36 @@ def gen_loss_everywhere():
     return cases
 
 
+def gen_reentrant(r, n):
+    """user code that re-enters the protocol: errbacks / callbacks that call execute() again"""
+    cases = []
+    for v in ("dict", "fifo"):
+        fixed = [
+            [("made",), ("exec_e", 1), ("lost",)],
+            [("made",), ("exec_e", 1), ("exec", 1), ("exec_e", 1), ("lost",), ("exec", 1)],
+            [("exec_e", 1), ("made",), ("exec_e", 1), ("lost",)],
+            [("made",), ("exec_e", 1), ("lost",), ("made",), ("reply", [(1, 0, None, 21)]), ("lost",)],
+            [("made",), ("exec_c", 1), ("reply", [(0, 0, None, 10)]), ("reply", [(1, 0, None, 20)])],
+            [("made",), ("exec_c", 1), ("exec_e", 1), ("reply", [(0, 0, None, 10)]), ("lost",)],
+            [("made",), ("exec_c", 1), ("exec_c", 1), ("reply", [(0, 0, None, 10)]), ("reply", [(1, 0, None, 11)]),
+             ("reply", [(2, 0, None, 12)]), ("reply", [(3, 0, None, 13)])],
+        ]
+        for items in fixed:
+            cases.append(mk_case(v, items, "reentrant-%s" % v))
+        base = [("made",), ("exec_e", 1), ("exec_c", 1), ("reply", [(0, 0, None, 11)]), ("exec_e", 1),
+                ("reply", [(1, 0, None, 12)]), ("exec", 1)]
+        for i in range(len(base) + 1):
+            cases.append(mk_case(v, base[:i] + [("lost",)] + base[i:] + [("exec_e", 1)], "reentrant-loss-at-%s" % v))
+        for _ in range(n):
+            items = fifo_history(r) if v == "fifo" else random_history(r, "dict")
+            items = [((r.choice(["exec_e", "exec_c", "exec"]), it[1]) if it[0] == "exec" else it) for it in items]
+            if v == "fifo":
+                # keep the serial line in order: replies only for what the idealised client has outstanding
+                items = [it for it in items if it[0] != "reply"] + [("lost",)]
+            cases.append(mk_case(v, items, "reentrant-random-%s" % v))
+    return cases
+
+
 def gen_wrap():
     cases = []
     # no request outstanding across the wrap: fine
@@ -320,6 +355,7 @@ def suites(tier):
     r = common.rng("C16.hist")
     cases = gen_permutations() + gen_loss_everywhere() + gen_wrap() + gen_long()
     n = 500 if tier == "quick" else 8000
+    cases += gen_reentrant(r, n // 5)
     for _ in range(n):
         cases.append(mk_case("dict", random_history(r, "dict"), "random-dict"))
     for _ in range(n // 3):
